@@ -280,6 +280,28 @@ def solve(ob: Obligation) -> None:
         if r2 is not None:
             ob.backend = "cvc5"
             r = r2
+    if r == z3.unknown and ob.kind != "cover":
+        # last resort: drop the quantified assumptions.  unsat => proved from fewer assumptions (sound);
+        # sat => a candidate counter-model (the dropped facts might exclude it): reported as such
+        from .exec import has_quantifier
+
+        s3 = z3.Solver()
+        s3.set("timeout", Z3_TIMEOUT_MS)
+        for a in INTERN.string_axioms():
+            s3.add(a)
+        for p in ob.pc:
+            if not has_quantifier(p):
+                s3.add(p)
+        s3.add(z3.Not(ob.goal))
+        r3 = s3.check()
+        if r3 == z3.unsat:
+            r = z3.unsat
+            ob.backend = "z3-api(qf-relaxed)"
+        elif r3 == z3.sat:
+            r = z3.sat
+            s = s3
+            ob.backend = "z3-api(qf-relaxed candidate)"
+            ob.relaxed = True
     ob.time = time.time() - t0
     if r == z3.unsat or r == "unsat":
         ob.result = "unsat"
